@@ -25,6 +25,9 @@ EXPLANATION = (
     'positions, advancing by the content length; (e) the item and authentication factories are keyed by the name the '
     'registered class hard-wires; (f) tag lists, simple authentication and bearer tokens are read at the positions '
     'and widths at which they are written. Not decided: value round trips.')
+EXPLANATION_ADDED = ("(g) every composite entry becomes one item of the class registered for its encoding, told that encoding, given exactly the content slice, appended once; (h) data-MIME / accept-MIME items and the authentication item are written as encoded headers (plus the authentication's own bytes) and read back through the header parser with the cursor advanced by what it consumed; lookup functions index their table with the argument unchanged; length guards are exact on both sides; writers in accumulator style are lowered as well.")
+EXPLANATION = EXPLANATION.replace(' Not decided', ' ' + EXPLANATION_ADDED + ' Not decided', 1) \
+    if ' Not decided' in EXPLANATION else EXPLANATION + ' ' + EXPLANATION_ADDED
 ASSUMPTIONS = COMMON_ASSUMPTIONS
 
 
